@@ -60,6 +60,14 @@ impl Out {
         self.distinct.insert(h.finish());
     }
     pub fn violation(&mut self, property: &str, clause: &str, msg: String) {
+        // KRPMON_MUTE=clause,clause (validation runs only, never set by ./check): drop the named clauses so that
+        // the clauses they normally shadow can be shown to fire on a mutant
+        if let Some(m) = std::env::var_os("KRPMON_MUTE") {
+            if m.to_string_lossy().split(',').any(|x| x == clause) {
+                self.count(&format!("muted.{}", clause));
+                return;
+            }
+        }
         self.violations.push(Violation { property: property.into(), clause: clause.into(), msg, known_sig: None });
     }
     pub fn known(&mut self, property: &str, clause: &str, sig: &str, msg: String) {
